@@ -241,11 +241,20 @@ func (env *SpecEnv) eval(e *SExpr) Val {
 			if len(ls) != 1 {
 				sfail("quantified variable %s of composite type %s", name, e.Types[i])
 			}
-			bv := Bound(name, ls[0].sort)
+			bname := name
+			if isRefType(t) {
+				bname = "ref$" + name // pre-instantiation offers only reference-valued constants for it
+			}
+			bv := Bound(bname, ls[0].sort)
 			bvs = append(bvs, bv)
 			v := scalar(bv, t)
 			if _, _, ok := intRange(t); ok {
 				guards = append(guards, inRange(bv, t))
+			}
+			if et, _ := derefStruct(t); et != nil && mentionsAllocated(e.Args[0], name) {
+				// a quantified pointer that the body restricts by allocated(v) ranges over the allocated
+				// objects of its own type (the allocation map is untyped; rtag gives the type)
+				guards = append(guards, Or(Eq(bv, IntLit(0)), Eq(RefTag(bv), tagOfStruct(et))))
 			}
 			n = n.bind(name, v)
 		}
@@ -749,6 +758,12 @@ func (env *SpecEnv) evalModLoc(e *SExpr) []modLoc {
 				v := env.eval(e.Args[1])
 				if v.K == KSlice {
 					return []modLoc{{kind: "elems", ref: v.F[0].S, T: v.T.Underlying().(*types.Slice).Elem(), text: e.String()}}
+				}
+				if v.K == KScalar && v.T != nil {
+					// a local array variable: its row in the element heap
+					if at, ok := v.T.Underlying().(*types.Array); ok {
+						return []modLoc{{kind: "elems", ref: v.S, T: at.Elem(), text: e.String()}}
+					}
 				}
 			case "entries":
 				v := env.eval(e.Args[1])
